@@ -7,7 +7,7 @@
     [check_case] = bit0 (model <> implementation) + bit1 (the implementation's own trace
     violates the property text) + 4 * detail. *)
 From Coq Require Export Floats.
-From Srtla Require Import Base Constants LinkCc.
+From Srtla Require Import Base Constants LinkCc LinkCcF.
 From Srtla Require FConstants.
 Local Open Scope Z_scope.
 
@@ -22,7 +22,7 @@ Record lobs := L {
   o_deg : bool;      (* snapshot loss_degraded *)
   o_priv : list Z    (* private state, see [priv_of] *)
 }.
-Record tobs := O { t_links : list lobs; t_keys : list Z }.
+Record tobs := TO { t_links : list lobs; t_keys : list Z }.
 
 (** per-connection inputs as written by the harness (the loss-EWMA oracle is taken from the
     observation of the same tick) *)
@@ -74,7 +74,7 @@ Definition lobs_of (s : link) : lobs :=
 
 (** ---- the model's run: trace = (op, observation) per tick ---- *)
 Definition tobs_of (c' : ctrl) (inps : list inp) : tobs :=
-  O (map (fun i => lobs_of (getd link_default c' (i_id i))) inps) (map fst c').
+  TO (map (fun i => lobs_of (getd link_default c' (i_id i))) inps) (map fst c').
 
 Fixpoint run_from (c : ctrl) (ops : list op) : list (op * tobs) :=
   match ops with
@@ -259,7 +259,7 @@ Fixpoint zip_inps (cis : list cinp) (os : list lobs) : list inp :=
 Fixpoint ops_of (cops : list cop) (impl : list tobs) : list op :=
   match cops with
   | [] => []
-  | T now cis :: t => Tick now (zip_inps cis (t_links (hd (O [] []) impl))) :: ops_of t (tl impl)
+  | T now cis :: t => Tick now (zip_inps cis (t_links (hd (TO [] []) impl))) :: ops_of t (tl impl)
   end.
 
 Definition lobs_diff (a b : lobs) : Z :=   (* 0 = equal, else 1 + index of the first differing field *)
@@ -302,6 +302,17 @@ Fixpoint trace_diff (m : list (op * tobs)) (impl : list tobs) (k : Z) : Z :=
   | _, _ => 16 * k + 13
   end.
 
+(** the f64 rendering of the target arithmetic (Model/LinkCcF.v) agrees with the integer model
+    on every link step of the history (ids distinct per tick) *)
+Fixpoint float_ok_from (c : ctrl) (ops : list op) : bool :=
+  match ops with
+  | [] => true
+  | Tick now inps :: t =>
+      let c' := tick_all c now inps in
+      forallb (fun i => float_agrees (getd link_default c (i_id i)) (getd link_default c' (i_id i)) i) inps
+      && float_ok_from c' t
+  end.
+
 Definition check_case (c : case) : N :=
   let ops := ops_of (c_ops c) (c_impl c) in
   let d := trace_diff (run ops) (c_impl c) 1 in
@@ -309,8 +320,9 @@ Definition check_case (c : case) : N :=
   let shape_bad := negb (length (c_ops c) =? length (c_impl c))%nat in
   if negb (v =? 0)%N then ((if (d =? 0)%Z then 0 else 1) + 2 + 4 * v)%N
   else if shape_bad then (1 + 4 * 63)%N
-  else if (d =? 0)%Z then 0%N
-  else (1 + 4 * (64 + Z.to_N d))%N.
+  else if negb (d =? 0)%Z then (1 + 4 * (64 + Z.to_N d))%N
+  else if negb (float_ok_from [] ops) then (1 + 4 * 62)%N
+  else 0%N.
 
 (** diagnostic helpers (used when investigating a replay by hand) *)
 Definition model_trace (c : case) : list tobs := map snd (run (ops_of (c_ops c) (c_impl c))).
